@@ -1,5 +1,167 @@
-"""C18-S2 placeholder (filled in below)."""
+"""C18-S2: for every variant of SymbolicValueData, `child_size` sums the sizes of exactly the children that
+`children()` returns (Engine B).  Vector-valued fields (Log.topics, Concat.values, Packed.elements) are sequences of
+two symbolic elements."""
+import re
+import time
+
+import z3
+
+from .. import common as C
+from .. import native
+from mirsmt.interp import Agg, Bool, Cell, Int, Lazy, Obj, PathEnd, Ref, Unsupported, UNIT, type_args
+from mirsmt.summaries import load
+
+ENUM = "vm::value::SymbolicValueData"
+SEQ_LEN = 2
+
+
+def extra_summaries():
+    nbox = [0]
+
+    def seq_of(lz):
+        et = (type_args(lz.ty) or ["?"])[0]
+        return Obj("seq", lz.ty, name=lz.name, cells=[Cell(Lazy(et, "%s[%d]" % (lz.name, i)), "%s[%d]" % (lz.name, i)) for i in range(SEQ_LEN)])
+
+    def as_seq(ctx, r):
+        from mirsmt.summaries import deref
+        c, p = deref(ctx, r)
+        v = ctx.read(c, p)
+        if isinstance(v, Lazy) and ("SymbolicValue" in v.ty or "PackedSpan" in v.ty) and v.ty.strip().startswith(("std::vec::Vec", "Vec")):
+            v = seq_of(v)
+            ctx.write(c, p, v)
+        return v if isinstance(v, Obj) and v.kind == "seq" else None
+
+    def vec_deref(ctx, a, ty, c):
+        return a[0] if as_seq(ctx, a[0]) is not None else NotImplemented
+
+    def slice_iter(ctx, a, ty, c):
+        s = as_seq(ctx, a[0])
+        if s is None:
+            return NotImplemented
+        return Obj("it", ty, op="slice", cells=list(s.cells), pos=0)
+
+    def box_new_uninit(ctx, a, ty, c):
+        nbox[0] += 1
+        o = Obj("boxarr", ty)
+        o.cell = Cell(Agg("MaybeUninit", {}, None, "box#%d" % nbox[0]), "box#%d" % nbox[0])
+
+        def hook(ctx_, v, idx, fty):
+            return v, (lambda nv: None)
+        o.field_hook = hook
+        return o
+
+    def into_vec(ctx, a, ty, c):
+        o = a[0]
+        if not (isinstance(o, Obj) and o.kind == "boxarr"):
+            raise Unsupported("box_assume_init_into_vec_unsafe on %r" % (o,))
+        v = o.cell.v
+        try:
+            arr = v.fields[1].fields[0].fields[0]
+        except (KeyError, AttributeError):
+            raise Unsupported("boxed array not initialised as expected")
+        items = [arr.fields[i] for i in sorted(arr.fields)]
+        return Obj("vec", ty, name="vec!", base_len=z3.BitVecVal(0, 64), pushed=items, elem_ty="?")
+    return [
+        (r"^<Vec<.*(SymbolicValue|PackedSpan).*> as Deref>::deref$", vec_deref),
+        (r"^core::slice::<impl \[.*\]>::iter$", slice_iter),
+        (r"^Box::<\[.*\]>::new_uninit$", box_new_uninit),
+        (r"^(std::boxed::)?box_assume_init_into_vec_unsafe::<.*>$", into_vec),
+    ]
+
+
+def size_var_of(ctx, child):
+    """z3 variable holding `.size()` of a child value (an Arc<SymbolicValue> that is still a symbolic input)"""
+    v = child
+    if isinstance(v, Ref):
+        v = load(ctx, v)
+    if isinstance(v, Lazy):
+        return z3.BitVec(v.name + ".*.4", 64)
+    if isinstance(v, Agg) and "inner" in v.attrs:
+        iv = v.attrs["inner"].v
+        if isinstance(iv, Lazy):
+            return z3.BitVec(iv.name + ".4", 64)
+        if isinstance(iv, Agg) and iv.name:
+            return z3.BitVec(iv.name + ".4", 64)
+    raise Unsupported("child %r" % (child,))
 
 
 def s2(out, eng, pr):
-    out.notes.append("S2 (child_size vs children per variant) not yet encoded in this revision")
+    f_cs = eng.fn(">::child_size", file="src/vm/value/mod.rs")
+    f_ch = None
+    for n, fn in eng.fns.items():
+        if n.endswith(">::children") and "src/vm/value/mod.rs" in n and fn.args and "SymbolicValueData" in fn.args[0][1]:
+            f_ch = fn
+    if f_ch is None:
+        out.inconc("S2: SymbolicValueData::children not found")
+        return
+    out.functions += ["vm::value::SymbolicValueData::{child_size, children} (all 66 variants)"]
+    variants = [v for v, _ in eng.src.variants(ENUM)]
+    results = {}
+    t0 = time.time()
+    for which, f in (("child_size", f_cs), ("children", f_ch)):
+        ex = eng.explorer(extra=extra_summaries(), max_visits=8)
+
+        def body(ctx, f=f):
+            cell = Cell(Lazy(ENUM + "<AuxData>", "data"), "data")
+            r = ctx.run_fn(f, [Ref(cell, ())])
+            v = cell.v
+            if isinstance(v, Lazy):
+                v = ctx.as_agg(v)
+                cell.v = v
+            ctx.variant_of(v)
+            return r, cell, ctx
+        try:
+            paths = ex.explore(body)
+        except Unsupported as e:
+            out.obligation("S2.child_size_matches_children", "mirsmt", "inconclusive", 0, witness=False, note="%s: %s" % (which, e))
+            out.inconc("S2 (%s): %s" % (which, e))
+            return
+        for p in paths:
+            if p.kind == "panic":
+                continue        # usize overflow of the sum: needs > 2^64 nodes
+            if p.kind != "return":
+                out.inconc("S2: %s path ends with %s %s" % (which, p.kind, p.msg[:60]))
+                continue
+            r, cell, ctx = p.ret
+            results.setdefault(cell.v.variant, {})[which] = (r, ctx, p.pc)
+    bad = []
+    n_ok = 0
+    for var in variants:
+        d = results.get(var, {})
+        if "child_size" not in d or "children" not in d:
+            out.inconc("S2: variant %s not explored by both functions" % var)
+            continue
+        (cs, ctx1, pc1), (ch, ctx2, pc2) = d["child_size"], d["children"]
+        try:
+            kids = ch.pushed if isinstance(ch, Obj) and ch.kind == "vec" else None
+            if kids is None:
+                raise Unsupported("children() returned %r" % (ch,))
+            total = z3.BitVecVal(0, 64)
+            for k in kids:
+                total = total + size_var_of(ctx2, k)
+            s = z3.Solver()
+            for c_ in pc1 + pc2:
+                s.add(c_)
+            s.add(ctx1.force(cs).e != total)
+            pr.n_queries += 1
+            if s.check() == z3.unsat:
+                n_ok += 1
+            else:
+                bad.append((var, str(z3.simplify(ctx1.force(cs).e)), str(z3.simplify(total))))
+        except Unsupported as e:
+            out.inconc("S2.%s: %s" % (var, e))
+    dt = time.time() - t0
+    if not bad:
+        out.obligation("S2.child_size_matches_children", "mirsmt", "holds", dt, witness=n_ok > 0, variants=n_ok,
+                       note="for each of the %d variants, child_size == sum of size() over exactly the values children() returns" % n_ok)
+        return
+    for var, got, want in bad:
+        confirmed, rep = native.scenario(out, "node_size", {"name": var})
+        what = "child_size of %s is %s but children() has sizes %s" % (var, got, want)
+        oid = "S2.%s" % var
+        if confirmed:
+            out.obligation(oid, "mirsmt", "violated", dt, witness=True, note=what, replay=rep)
+            out.violation(C.Violation(key="child-size-mismatch:%s" % var, what="S2: " + what, replay={"engine": "mirsmt", "native": rep}))
+        else:
+            out.obligation(oid, "mirsmt", "cex-not-reproduced", dt, witness=False, note=what, replay=rep)
+            out.inconc("%s: %s (not reproduced natively: %s)" % (oid, what, rep))
